@@ -151,53 +151,53 @@ USER_FORM = {
     'hodge': lambda a: a.hodge(), 'unhodge': lambda a: a.unhodge(), 'polarity': lambda a: a.polarity(),
     'unpolarity': lambda a: a.unpolarity(), 'normsq': lambda a: a.normsq(), 'inv': lambda a: a.inv(),
 }
-_toggle = [0]
+_form_rng = random.Random(20260928)
 
 
 def _call(alg, name, *ops):
-    _toggle[0] += 1
-    if name in USER_FORM and _toggle[0] % 2:
+    # user-level or algebra-level form, chosen without a period (a strict alternation would give every operator of a fixed
+    # operator list the same form for ever)
+    if name in USER_FORM and _form_rng.random() < 0.5:
         return USER_FORM[name](*ops)
     return getattr(alg, name)(*ops)
 
 
 def run_case(alg, fr, name, ak, av, bk=None, bv=None):
-    """Run the real operator; return (ok, record)."""
-    a = mv_from(alg, ak, av)
-    A = fr.to_ref(ak, av)
-    try:
-        if bk is not None:
-            b = mv_from(alg, bk, bv)
-            B = fr.to_ref(bk, bv)
-            try:
-                exp = ('value', ref_binary(fr, name, A, B))
-            except ZeroDivisionError:
-                exp = ('raise', 'ZeroDivisionError')
-            got_mv = _call(alg, name, a, b)
-        else:
-            try:
-                exp = ('value', ref_unary(fr, name, A))
-            except ZeroDivisionError:
-                exp = ('raise', 'ZeroDivisionError')
-            got_mv = _call(alg, name, a)
-        got = ('value', fr.mv_to_ref(got_mv))
-        dup = len(set(got_mv.keys())) != len(got_mv.keys())
-    except ZeroDivisionError:
-        got = ('raise', 'ZeroDivisionError')
-        dup = False
-    except Exception as e:
-        got = ('raise', type(e).__name__ + ': ' + str(e)[:200])
-        dup = False
-    ok = (got[0] == exp[0]) and (O.eq(got[1], exp[1]) if got[0] == 'value' else got[1] == exp[1]) and not dup
+    """Run the real operator in BOTH of its forms - the algebra-level call alg.<name>(a, b) and the user-level spelling (a * b,
+    a - b, ~a, a.lc(b), ..) - and compare each with the reference; return (ok, record)."""
+    forms = [('alg.' + name, lambda *ops: getattr(alg, name)(*ops))]
+    if name in USER_FORM:
+        forms.append(('infix/method', USER_FORM[name]))
     rec = {'op': name, 'a': showmv(ak, av)}
     if bk is not None:
         rec['b'] = showmv(bk, bv)
-    if not ok:
-        rec['got'] = {str(k): show(v) for k, v in got[1].items()} if got[0] == 'value' else got[1]
-        rec['expected'] = {str(k): show(v) for k, v in exp[1].items()} if exp[0] == 'value' else exp[1]
-        if dup:
-            rec['note'] = 'result stores a blade twice'
-    return ok, rec
+    A = fr.to_ref(ak, av)
+    B = fr.to_ref(bk, bv) if bk is not None else None
+    try:
+        exp = ('value', ref_binary(fr, name, A, B) if bk is not None else ref_unary(fr, name, A))
+    except ZeroDivisionError:
+        exp = ('raise', 'ZeroDivisionError')
+    for label, f in forms:
+        a = mv_from(alg, ak, av)
+        b = mv_from(alg, bk, bv) if bk is not None else None
+        dup = False
+        try:
+            got_mv = f(a, b) if bk is not None else f(a)
+            got = ('value', fr.mv_to_ref(got_mv))
+            dup = len(set(got_mv.keys())) != len(got_mv.keys())
+        except ZeroDivisionError:
+            got = ('raise', 'ZeroDivisionError')
+        except Exception as e:
+            got = ('raise', type(e).__name__ + ': ' + str(e)[:200])
+        ok = (got[0] == exp[0]) and (O.eq(got[1], exp[1]) if got[0] == 'value' else got[1] == exp[1]) and not dup
+        if not ok:
+            rec['form'] = label
+            rec['got'] = {str(k): show(v) for k, v in got[1].items()} if got[0] == 'value' else got[1]
+            rec['expected'] = {str(k): show(v) for k, v in exp[1].items()} if exp[0] == 'value' else exp[1]
+            if dup:
+                rec['note'] = 'result stores a blade twice'
+            return False, rec
+    return True, rec
 
 
 # ------------------------------------------------------------------ job: tables (C01)
